@@ -61,6 +61,8 @@ def _hull_triangles(V):
 
 def gen_mesh(rng, tier, scale):
     style = rng.choice(["gauss", "gauss", "sphere", "box", "prism", "lattice"])
+    if rng.chance(0.02 if tier == "quick" else 0.06):
+        return gen_ring_mesh(rng, tier, scale)
     nmax = 60 if tier == "quick" else 200
     if style == "gauss":
         n = rng.randint(4, nmax)
@@ -99,6 +101,35 @@ def gen_mesh(rng, tier, scale):
         V2 = V2[perm]
         T2 = [[inv[i] for i in t] for t in T2]
     return {"kind": "mesh", "vertices": (V2 + 0.0).tolist(), "triangles": T2}
+
+
+def gen_ring_mesh(rng, tier, scale):
+    """A finely tessellated prism whose caps are triangulated as strips: a convex mesh with a large graph diameter
+    (hundreds of edges between far-apart vertices), so that hill climbing needs many steps."""
+    m = rng.randint(150, 500) if tier == "quick" else rng.randint(300, 2500)
+    ang = [2 * math.pi * i / m for i in range(m)]
+    r = scale
+    h = 0.5 * scale * rng.choice([0.1, 1.0])
+    V = [[r * math.cos(a), r * math.sin(a), -h] for a in ang] + [[r * math.cos(a), r * math.sin(a), h] for a in ang]
+    T = []
+    for i in range(m):  # side quads
+        j = (i + 1) % m
+        T.append([i, j, m + j])
+        T.append([i, m + j, m + i])
+    # caps as zig-zag strips: 0, 1, m-1, 2, m-2, ...
+    order = [0]
+    lo, hi = 1, m - 1
+    while lo <= hi:
+        order.append(lo)
+        lo += 1
+        if lo <= hi:
+            order.append(hi)
+            hi -= 1
+    for k in range(len(order) - 2):
+        a, b, c = order[k], order[k + 1], order[k + 2]
+        T.append([a, c, b] if k % 2 == 0 else [a, b, c])          # bottom cap (normal -z)
+        T.append([m + a, m + b, m + c] if k % 2 == 0 else [m + a, m + c, m + b])  # top cap
+    return {"kind": "mesh", "vertices": (np.array(V) + 0.0).tolist(), "triangles": T}
 
 
 def gen_spec(rng, cfg, tier, kind=None):
@@ -217,11 +248,13 @@ def gen_dir(rng, entry):
     if n == 0.0:
         d = np.array([0.0, 0.0, 1.0])
         n = 1.0
-    mag = rng.choice([1.0, 1.0, None, None, "keep"])
+    mag = rng.choice([1.0, 1.0, None, None, "keep", "almost"])
     if mag is None:
         d = d / n * rng.logu(1e-8, 1e4)
     elif mag == 1.0:
         d = d / n
+    elif mag == "almost":  # nearly, but not exactly, unit length
+        d = d / n * (1.0 + rng.choice([-1.0, 1.0]) * rng.logu(1e-12, 1e-4))
     return (d + 0.0).tolist()
 
 
